@@ -192,6 +192,19 @@ Record joined (run : list gev) (i : N) : Prop := {
             exists to, In (OSend to (MP (mk_ref T_PREPARE (cfg i) H v h) (my_sig (cfg i)))) (tc_out (nstate i run))
 }.
 
+(* what the code does on accepting the proposal (Live.accepted) is what [joined] asks of a member *)
+Lemma accepted_joined run i : wrun run -> good i -> accepted (cfg i) (nstate i run) v h -> joined run i.
+Proof.
+  intros Hr Hg (A1 & (en & A2 & A2') & A3 & to & A4). destruct (node_inv run i Hr Hg) as (_ & _ & Hh & Hcm & _).
+  rewrite Hcm in A2'. rewrite Hh, cfg_me in *. constructor; [exact A1|exists en; auto|intros _; split; [exact A3|exists to; exact A4]].
+Qed.
+(* ... and the leader of v needs only to be in v holding its own proposal *)
+Lemma leader_joined run : tc_v (nstate Ld run) = v ->
+  (exists en, is_preprepared (tc_t (nstate Ld run)) v h = Some en /\ pe_snd en = my_sig (cfg Ld)) -> joined run Ld.
+Proof.
+  intros A1 (en & A2 & A3). constructor; [exact A1|exists en; split; [exact A2|rewrite A3; cbn; apply cfg_me]|intro Hx; contradiction].
+Qed.
+
 Definition prep_pair (j : N) : bref * ssig := (mk_ref T_PREPARE (cfg j) H v h, my_sig (cfg j)).
 Definition preps_for (i : N) : list (bref * ssig) := map prep_pair (filter (fun j => negb (j =? i) && negb (j =? Ld)) Q).
 Definition prep_msgs (i : N) : list msg := map (fun q => MP (fst q) (snd q)) (preps_for i).
